@@ -6,7 +6,9 @@
 //      order of the rest, and every lint it hides agrees with l in kind, message, suggestions and flagged text;
 //  (b) exporting the list (serde_json) and importing it again hides exactly the same lints;
 //  (c) l stays ignored when a paragraph is appended after / inserted before the text, provided l's span is at
-//      least 4 characters away from the edit (the tokens within two characters of it are untouched).
+//      least 4 characters away from the edit (the tokens within two characters of it are untouched); (c') likewise when
+//      a word at least two characters in front of it is replaced; (b') importing an exported list on top of a non-empty
+//      list hides the lints of both.
 use crate::linting::{LintGroup, Linter};
 use crate::{Dialect, FstDictionary};
 
@@ -102,6 +104,54 @@ fn rac_ignored_lints() {
                 panic!("ignore-list contract violated");
             }
             if !sampled { sampled = true; println!("RAC-SAMPLE ignored_lints {{\"text\": {:?}, \"ignored_lint\": {:?}}}", t, format!("{:?} {:?}", l.span, l.message)); }
+        }
+    }
+    // (b') importing an exported list ON TOP OF a non-empty list hides the lints of both (either order)
+    for t in ["Ths is a problm with teh text, and and it is wrng.", "I has a apple, teh end."] {
+        let doc = Document::new_plain_english_curated(t);
+        let lints = group.lint(&doc);
+        for i in 0..lints.len().min(4) {
+            for j in 0..lints.len().min(4) {
+                if i == j { continue; }
+                cases += 1;
+                nontrivial += 1;
+                let mut a = IgnoredLints::new();
+                a.ignore_lint(&lints[i], &doc);
+                let mut b = IgnoredLints::new();
+                b.ignore_lint(&lints[j], &doc);
+                let exported = serde_json::to_string(&a).unwrap();
+                b.append(serde_json::from_str(&exported).unwrap());
+                // ... and once more through export + import of the combined list
+                let again: IgnoredLints = serde_json::from_str(&serde_json::to_string(&b).unwrap()).unwrap();
+                for (name, list) in [("after import on top of a non-empty list", &b), ("after exporting and importing the combined list", &again)] {
+                    if !list.is_ignored(&lints[i], &doc) || !list.is_ignored(&lints[j], &doc) {
+                        println!("RAC-CEX ignored_lints {{\"text\": {:?}, \"why\": \"lints #{} and #{} were ignored separately; {} one of them is reported again\"}}", t, i, j, name);
+                        panic!("ignore-list contract violated");
+                    }
+                }
+            }
+        }
+    }
+    // (c') the ignored lint stays ignored when a word at least two characters in front of it is edited
+    for (t1, t2, word) in [("We had tea, problm solved.", "We had coffee, problm solved.", "problm"), ("Yes, problm again.", "No, problm again.", "problm"),
+                           ("A cup of tea  problm here.", "A cup of cocoa  problm here.", "problm"), ("The old house; teh end.", "The new house; teh end.", "teh")] {
+        cases += 1;
+        let d1 = Document::new_plain_english_curated(t1);
+        let d2 = Document::new_plain_english_curated(t2);
+        let l1 = group.lint(&d1);
+        let l2 = group.lint(&d2);
+        let f1 = l1.iter().find(|l| l.span.get_content_string(d1.get_source()) == word);
+        let f2 = l2.iter().find(|l| l.span.get_content_string(d2.get_source()) == word);
+        if let (Some(f1), Some(f2)) = (f1, f2) {
+            if f1.message == f2.message && f1.suggestions == f2.suggestions {
+                nontrivial += 1;
+                let mut ig = IgnoredLints::new();
+                ig.ignore_lint(f1, &d1);
+                if !ig.is_ignored(f2, &d2) {
+                    println!("RAC-CEX ignored_lints {{\"text\": {:?}, \"edited\": {:?}, \"why\": \"the ignored lint on {:?} is reported again after a word more than two characters in front of it was edited\"}}", t1, t2, word);
+                    panic!("ignore-list contract violated");
+                }
+            }
         }
     }
     println!("RAC-OK ignored_lints cases={} nontrivial={} bound=every-lint-of-the-harvested-rule-test-sentences;edits=append/prepend-one-paragraph", cases, nontrivial);
